@@ -1,19 +1,66 @@
 import LospanVerif.Model.Pipeline
+import LospanVerif.Proofs.Counters
 /-
-  C03 — uplink replay protection.
-  Proved here: the accept rule itself, for every state and frame (strict devices): a frame is
-  processed only if its counter is not below the expected value of the snapshot the handler
-  read, and processing it stores the counter past it before anything else happens.
-  The all-schedules statement does NOT hold for the code as it stands (read, check and write are
-  three operations; see known_findings.json C03); the sequential statement and the racing
-  schedules are decided by the pipeline engines.
+  C03 — uplink replay protection: a frame counter is accepted at most once.
+
+  The stored uplink counter is moved by one conditional statement (`AdvanceFCntUp`: "set to f+1
+  where the stored value is not past f"), and nothing else in the pipeline writes it within a
+  session. The theorems below hold for EVERY event list of the transition system of
+  Model/Pipeline.lean: any number of frames and devices, every interleaving of the steps of all
+  handler, scheduler, sendAt and encoder threads, injected faults at any step and crashes anywhere.
+
+  `acceptedUp` is the history of successful `AdvanceFCntUp` operations (device, counter) of the
+  current session, up to the wrap of the 16-bit counter (the property excuses exhaustion).
 -/
 namespace LospanVerif
 namespace Props.C03
-open Model.Pipeline Model.Phy
+open Model.Pipeline Model.Phy Proofs.Counters
 
-/-- Strict device, counter below the expected value: the handler moves on to the next matching
-    device (or ends) and the system is untouched. -/
+/-- The counters accepted for device `e`, in the order they were accepted. -/
+def acceptedFor (s : Sys) (e : Bytes) : List Nat := (s.acceptedUp.filter (fun x => x.1 == e)).map (·.2)
+
+/-- **All schedules.** Within a session the accepted counters of a device strictly increase, so no
+    counter is accepted twice — whatever the interleaving, faults and crashes. -/
+theorem C03_accepted_strictly_increasing (E D : Spec.Rfc4493.BlockFn) (cfg : Config) (db : DB) (evs : List Event) (e : Bytes) :
+    (acceptedFor (run E D cfg (Sys.init db) evs) e).Pairwise (· < ·) :=
+  (cinv_run E D cfg _ evs (CInv.init db)).upI e
+
+/-- **All schedules.** Every accepted counter is below what the store now holds for the device. -/
+theorem C03_accepted_below_stored (E D : Spec.Rfc4493.BlockFn) (cfg : Config) (db : DB) (evs : List Event)
+    (e : Bytes) (f : Nat) (h : (e, f) ∈ (run E D cfg (Sys.init db) evs).acceptedUp) :
+    ∀ d ∈ (run E D cfg (Sys.init db) evs).db.devices, d.eui = e → f < d.fcntUp := by
+  intro d hd hde
+  have := (cinv_run E D cfg _ evs (CInv.init db)).upB e f h (d.eui, d.fcntUp) (List.mem_map.mpr ⟨d, hd, rfl⟩) hde
+  exact this
+
+/-- …hence a copy of an accepted frame, or a re-sent frame with an older counter, can never move
+    the counter again: the statement finds no row to change. -/
+theorem C03_no_second_acceptance (E D : Spec.Rfc4493.BlockFn) (cfg : Config) (db : DB) (evs : List Event)
+    (e : Bytes) (f f' : Nat) (kw : Bool) (h : (e, f) ∈ (run E D cfg (Sys.init db) evs).acceptedUp) (hle : f' ≤ f) :
+    (run E D cfg (Sys.init db) evs).db.advanceFCntUp e f' kw = none := by
+  unfold DB.advanceFCntUp
+  rw [if_neg]
+  intro hany
+  simp only [List.any_eq_true, Bool.and_eq_true, beq_iff_eq, decide_eq_true_eq] at hany
+  obtain ⟨d, hd, hde, hdf⟩ := hany
+  have := C03_accepted_below_stored E D cfg db evs e f h d hd hde
+  omega
+
+/-- A strict device's frame gets past the counter step (towards the inbox) only through a
+    successful `AdvanceFCntUp` for exactly its counter: when that statement changes no row, every
+    continuation of the handler is back at the counter step of the *next* matching device. -/
+theorem C03_record_needs_accept (E : Spec.Rfc4493.BlockFn) (sys : Sys) (s : UpSt) (fault : Bool) (h1 : s.pc = 1)
+    (hs : s.cur.relaxed = false)
+    (hnone : sys.db.advanceFCntUp s.cur.eui s.p.mac.fhdr.fcnt (if s.nmatch > 1 then true else s.cur.keyWarning) = none) :
+    (stepUplink E sys s fault).1 = sys ∧ ∀ s', Thread.uplink s' ∈ (stepUplink E sys s fault).2 → s'.pc = 1 := by
+  simp only [stepUplink, h1]
+  by_cases hmt : s.nmatch > 1 <;> simp only [hmt, if_true, if_false] at hnone ⊢ <;>
+    (cases s.todo with
+     | nil => simp_all <;> (repeat' split) <;> simp_all
+     | cons d rest => simp_all <;> (repeat' split) <;> simp_all)
+
+/-- Strict device, counter below the expected value of the copy the handler read: the handler
+    moves on to the next matching device (or ends) and the system is untouched. -/
 theorem C03_old_counter_rejected (E : Spec.Rfc4493.BlockFn) (sys : Sys) (s : UpSt) (fault : Bool) (h1 : s.pc = 1)
     (hs : s.cur.relaxed = false) (hlt : s.p.mac.fhdr.fcnt < s.cur.fcntUp) :
     (stepUplink E sys s fault).1 = sys ∧
@@ -23,42 +70,6 @@ theorem C03_old_counter_rejected (E : Spec.Rfc4493.BlockFn) (sys : Sys) (s : UpS
   cases s.todo with
   | nil => simp
   | cons d rest => simp
-
-/-- Strict device, counter not below the expected value: the stored counter becomes counter+1
-    (16-bit) in the same step that lets the handler continue — or the handler stops for this
-    device if that write fails. Nothing else (inbox, queues, buffer) is touched by this step. -/
-theorem C03_accept_moves_counter (E : Spec.Rfc4493.BlockFn) (sys : Sys) (s : UpSt) (h1 : s.pc = 1)
-    (hge : s.cur.fcntUp ≤ s.p.mac.fhdr.fcnt) (db' : DB)
-    (hw : sys.db.updateState { (if s.nmatch > 1 then { s.cur with keyWarning := true } else s.cur) with
-            fcntUp := (s.p.mac.fhdr.fcnt + 1) % 65536 } = some db') :
-    stepUplink E sys s false =
-      ({ sys with db := db' },
-       [.uplink { s with pc := 2, cur := { (if s.nmatch > 1 then { s.cur with keyWarning := true } else s.cur) with
-            fcntUp := (s.p.mac.fhdr.fcnt + 1) % 65536 } }]) := by
-  have hng : ¬ (s.cur.fcntUp > s.p.mac.fhdr.fcnt) := by omega
-  simp only [stepUplink, h1]
-  by_cases hm : s.nmatch > 1
-  · simp only [hm, if_true] at hw ⊢
-    simp [hng, hge, hw]
-  · simp only [hm, if_false] at hw ⊢
-    simp [hng, hge, hw]
-
-/-- `UpdateDeviceState` writes exactly the snapshot's counters to the row of that EUI. -/
-theorem updateState_sets (db db' : DB) (d : Device) (h : db.updateState d = some db') :
-    ∀ x ∈ db'.devices, x.eui = d.eui → x.fcntUp = d.fcntUp ∧ x.fcntDn = d.fcntDn := by
-  unfold DB.updateState at h
-  split at h
-  · cases h
-    intro x hx hxe
-    simp only [List.mem_map] at hx
-    obtain ⟨y, _, rfl⟩ := hx
-    split
-    · exact ⟨rfl, rfl⟩
-    · rename_i hne
-      split at hxe
-      · rename_i heq; exact absurd heq hne
-      · simp_all
-  · cases h
 
 /-- A failed counter write stops the handler for this device: nothing of it becomes visible. -/
 theorem C03_failed_write_stops (E : Spec.Rfc4493.BlockFn) (sys : Sys) (s : UpSt) (h1 : s.pc = 1)
@@ -70,6 +81,15 @@ theorem C03_failed_write_stops (E : Spec.Rfc4493.BlockFn) (sys : Sys) (s : UpSt)
     (cases s.todo with
      | nil => simp [hng, hge]
      | cons d rest => simp [hng, hge])
+
+/-- Non-vacuity: two copies of frame 5 interleaved read-read-write-write; only one is accepted. -/
+example :
+    let d : Device := { eui := [1#8], appEUI := [2#8], devAddr := 7, appKey := [], nwkSKey := [], appSKey := [], fcntUp := 5, fcntDn := 0,
+                        relaxed := false, keyWarning := false, nonces := [] }
+    let db : DB := ⟨[d], [[2#8]], [], []⟩
+    (db.advanceFCntUp [1#8] 5 false).isSome = true ∧
+    ((db.advanceFCntUp [1#8] 5 false).bind (fun db' => db'.advanceFCntUp [1#8] 5 false)).isSome = false := by
+  decide
 
 end Props.C03
 end LospanVerif
